@@ -158,7 +158,11 @@ func c12d12bScenario(ctx *Ctx, fn string, os, ws []cty.Value) {
 			if os[0].Type().IsMapType() {
 				k = "map"
 			}
-			tag("sound_lookup_map_partial", k+":"+w0+",default:"+shape(ws[2]))
+			thm := "sound_lookup_object"
+			if k == "map" {
+				thm = "sound_lookup_map_partial"
+			}
+			tag(thm, k+":"+w0+",key:"+shape(ws[1])+",default:"+shape(ws[2]))
 		}
 	case "IndexFunc":
 		if len(ws) == 2 {
